@@ -52,11 +52,12 @@ Inductive ostep :=
 | Warn          (* if warning_catch: ... (bookkeeping on warning objects, no I/O) *)
 | WriteLines (r : bool).   (* for line in lines: fh.write(line + "\n")   /   r: fh.write(line.rstrip() + "\n") *)
 (* __exit__: exc_type is None / is not None / the name holding the temporary's path is not None *)
-Inductive cond := Always | IfOk | IfErr | IfTemp.
+Inductive cond := Always | IfOk | IfErr | IfTemp | IfOkTemp.   (* IfOkTemp = IfOk and IfTemp *)
 Inductive step :=
 | GuardExists            (* if os.path.isfile(path) and overwrite is not True: raise FileExistsError *)
 | GuardIsDir             (* if os.path.isdir(path): raise IsADirectoryError *)
 | OpenW (t : target)     (* self._fh = open(<t>, "w") *)
+| OpenElse (t u : target)   (* try: self._fh = open(<t>, "w")  except OSError: self._temp_path = None; self._fh = open(<u>, "w") *)
 | CopyMode               (* if os.path.isfile(path): shutil.copymode(path, temp) *)
 | Loop (s : sec) (body : list ostep)   (* for obj in <section s>: body *)
 | Children (r : bool)    (* for line in self.cells._run_children_format_for_mcnp(...): fh.write(line[.rstrip()] + "\n") *)
@@ -197,7 +198,7 @@ Fixpoint exec_objs (E : env) (body : list ostep) (objs : list object) (st : stat
   end.
 
 Definition cond_holds (c : cond) (ok pd : bool) : bool :=
-  match c with Always => true | IfOk => ok | IfErr => negb ok | IfTemp => pd end.
+  match c with Always => true | IfOk => ok | IfErr => negb ok | IfTemp => pd | IfOkTemp => ok && pd end.
 
 Definition with_fs (st : state) (f : fsys) (h : option target) : state :=
   mkstate f h (cur st) (nfmt st) (nwr st) (pend st).
@@ -221,6 +222,19 @@ Definition exec_step (E : env) (ok : bool) (s : step) (st : state) : state * res
       match fs st (pth E tg) with
       | Dir => (st, Err IsADirectoryError)
       | _ => if a_open (e_adv E) then (st, Err OSError)
+             else (with_pend (with_fs st (upd (fs st) (pth E tg) (File "")) (Some tg))
+                              (match tg with Temp => true | Dest => pend st end), Ok)
+      end
+  | OpenElse tg ug =>
+      (* the crash point [a_open] is "no NEW file can be made": it hits the first attempt only *)
+      let fallback :=
+        match fs st (pth E ug) with
+        | Dir => (st, Err IsADirectoryError)
+        | _ => (with_pend (with_fs st (upd (fs st) (pth E ug) (File "")) (Some ug)) false, Ok)
+        end in
+      match fs st (pth E tg) with
+      | Dir => fallback
+      | _ => if a_open (e_adv E) then fallback
              else (with_pend (with_fs st (upd (fs st) (pth E tg) (File "")) (Some tg))
                               (match tg with Temp => true | Dest => pend st end), Ok)
       end
@@ -418,12 +432,15 @@ Definition all_steps (w : writer) : list step := w_open w ++ w_body w ++ w_exit 
 
 (* no step opens or removes the destination itself *)
 Definition no_dest_step (s : step) : bool :=
-  match s with OpenW Dest => false | Remove _ Dest => false | _ => true end.
+  match s with
+  | OpenW Dest => false | OpenElse Dest _ => false | OpenElse _ Dest => false | Remove _ Dest => false
+  | _ => true
+  end.
 Definition dest_only_written_by_replace (w : writer) : bool := forallb no_dest_step (all_steps w).
 
 Definition is_replace (s : step) : bool := match s with Replace _ => true | _ => false end.
 Definition replace_guarded (s : step) : bool :=
-  match s with Replace IfOk => true | Replace _ => false | _ => true end.
+  match s with Replace IfOk => true | Replace IfOkTemp => true | Replace _ => false | _ => true end.
 (* os.replace only happens in the try part of __exit__, and only when no exception is propagating *)
 Definition replace_only_on_success (w : writer) : bool :=
   forallb (fun s => negb (is_replace s)) (w_open w ++ w_body w ++ w_final w ++ w_post w)
@@ -544,7 +561,8 @@ Definition parse_target (a : ascii) : option target :=
   if Ascii.eqb a "D" then Some Dest else if Ascii.eqb a "T" then Some Temp else None.
 Definition parse_cond (a : ascii) : option cond :=
   if Ascii.eqb a "A" then Some Always else if Ascii.eqb a "O" then Some IfOk
-  else if Ascii.eqb a "E" then Some IfErr else if Ascii.eqb a "P" then Some IfTemp else None.
+  else if Ascii.eqb a "E" then Some IfErr else if Ascii.eqb a "P" then Some IfTemp
+  else if Ascii.eqb a "Q" then Some IfOkTemp else None.
 Definition parse_sec (a : ascii) : option sec :=
   if Ascii.eqb a "M" then Some SMessage else if Ascii.eqb a "T" then Some STitle
   else if Ascii.eqb a "C" then Some SCells else if Ascii.eqb a "S" then Some SSurfaces
@@ -571,6 +589,11 @@ Definition parse_step (s : string) : option step :=
   | "CL" => Some Close
   | "HW" => Some HandleWarnings
   | String "O" (String a EmptyString) => option_map OpenW (parse_target a)
+  | String "O" (String "E" (String a (String b EmptyString))) =>
+      match parse_target a, parse_target b with
+      | Some x, Some y => Some (OpenElse x y)
+      | _, _ => None
+      end
   | String "R" (String "P" (String c EmptyString)) => option_map Replace (parse_cond c)
   | String "F" (String "G" (String c EmptyString)) => option_map Forget (parse_cond c)
   | String "R" (String "M" (String c (String t EmptyString))) =>
@@ -705,13 +728,15 @@ Fixpoint first_bad {A} (f : A -> bool) (l : list A) (i : nat) : option (nat * A)
   | x :: r => if f x then first_bad f r (S i) else Some (i, x)
   end.
 Definition show_target (t : target) := match t with Dest => "D" | Temp => "T" end.
-Definition show_cond (c : cond) := match c with Always => "A" | IfOk => "O" | IfErr => "E" | IfTemp => "P" end.
+Definition show_cond (c : cond) :=
+  match c with Always => "A" | IfOk => "O" | IfErr => "E" | IfTemp => "P" | IfOkTemp => "Q" end.
 Definition show_sec (s : sec) := match s with SMessage => "M" | STitle => "T" | SCells => "C" | SSurfaces => "S" | SData => "D" end.
 Definition show_ostep (o : ostep) :=
   match o with Format => "F" | Warn => "N" | WriteLines false => "W" | WriteLines true => "R" end.
 Definition show_step (s : step) : string :=
   match s with
   | GuardExists => "GE" | GuardIsDir => "GD" | OpenW t => "O" ++ show_target t | CopyMode => "CM"
+  | OpenElse t u => "OE" ++ show_target t ++ show_target u
   | Loop sc b => "L" ++ show_sec sc ++ String.concat "" (map show_ostep b)
   | Children false => "CH" | Children true => "CR" | Blank => "BL" | Close => "CL"
   | Replace c => "RP" ++ show_cond c | Remove c t => "RM" ++ show_cond c ++ show_target t
